@@ -56,10 +56,20 @@ def goenv():
     return e
 
 
+def _big_stack():
+    """coqc overflows the default 8 MB stack on large case lists: lift the soft limit to the hard one."""
+    try:
+        import resource
+        soft, hard = resource.getrlimit(resource.RLIMIT_STACK)
+        resource.setrlimit(resource.RLIMIT_STACK, (hard, hard))
+    except Exception:
+        pass
+
+
 def sh(cmd, cwd=ROOT, timeout=1800, env=None, stdin=None):
     t0 = time.time()
     try:
-        p = subprocess.run(cmd, cwd=cwd, env=env, input=stdin, stdout=subprocess.PIPE,
+        p = subprocess.run(cmd, cwd=cwd, env=env, input=stdin, stdout=subprocess.PIPE, preexec_fn=_big_stack,
                            stderr=subprocess.STDOUT, timeout=timeout, shell=isinstance(cmd, str), text=True)
         return p.returncode, p.stdout, time.time() - t0
     except subprocess.TimeoutExpired as ex:
@@ -330,9 +340,31 @@ def coq_eval(prop, out, require, queries, shard=120, timeout=1500):
     shards = [(i, body[i:i + shard]) for i in range(0, len(body), shard)]
     tag = "%s_%d" % (prop, os.getpid())
 
-    def one(si):
+    def one(si, depth=0):
         off, cs = si
-        name = "%s_s%d" % (tag, off)
+        r = one_raw(si)
+        if r[1] != 0 and len(cs) > 1 and ("Stack overflow" in r[2] or "Out of memory" in r[2]) and depth < 8:
+            # a shard too big for coqc: split it and evaluate the halves (indices stay global)
+            try:
+                os.remove(r[3])
+            except OSError:
+                pass
+            h = len(cs) // 2
+            a = one((off, cs[:h]), depth + 1)
+            b = one((off + h, cs[h:]), depth + 1)
+            return ("multi", [a, b])
+        return r
+
+    def flatten(r):
+        if r[0] == "multi":
+            for x in r[1]:
+                yield from flatten(x)
+        else:
+            yield r
+
+    def one_raw(si):
+        off, cs = si
+        name = "%s_s%d_%d" % (tag, off, len(cs))
         path = os.path.join(COQ, "Cases", name + ".v")
         with open(path, "w") as f:
             f.write(COQ_PRELUDE + require + "\n")
@@ -360,7 +392,8 @@ def coq_eval(prop, out, require, queries, shard=120, timeout=1500):
 
     ok, log = True, ""
     with concurrent.futures.ThreadPoolExecutor(max_workers=NPROC) as ex:
-        for off, rc, o, path in ex.map(one, shards):
+        results = [x for r in ex.map(one, shards) for x in flatten(r)]
+        for off, rc, o, path in results:
             if rc != 0:
                 ok = False
                 log += "shard %d failed (%s):\n%s\n" % (off, path, o[-3000:])
